@@ -39,6 +39,11 @@ def hash_variants(rng, doc, exhaustive):
         out.append(('multibyte', doc[:1] + doc[2:] + doc[1:2]))
     for a in SAME_LEN.get(doc[0], []):
         out.append(('same-digest-other-alg', bytes([a]) + doc[1:]))
+    # not an imprint at all: the right digest followed by further octets, or cut short (the constructor has to refuse them; if it ever builds an
+    # object from them, that object must not pass for the signed hash)
+    out.append(('digest-overlong', doc + bytes(rng.randrange(256) for _ in range(rng.choice([1, 2, 16, 32])))))
+    out.append(('digest-overlong', doc + b'\0'))
+    out.append(('digest-cut-short', doc[:-rng.choice([1, 2, 12])]))
     for a in (0, 1, 4, 5):
         if R.alg_len(a) != len(doc) - 1:
             out.append(('other-alg-other-length', gen.rnd_imprint(rng, a)))
@@ -82,7 +87,9 @@ def worker(job, r):
                 lv = levels if hname in ('equal',) or rng.random() < 0.15 else [rng.choice(levels)]
                 for L in lv:
                     mism = None
-                    if h[0] != doc[0]:
+                    if hname in ('digest-overlong', 'digest-cut-short'):
+                        mism = 'no-imprint'
+                    elif h[0] != doc[0]:
                         mism = 'GEN-04'
                     elif h != doc:
                         mism = 'GEN-01'
@@ -102,6 +109,8 @@ def worker(job, r):
                     elif L > 255:
                         if q.rc == 0 and not (res == 'FAIL' and err == mism):
                             why = 'level above 255 not refused'
+                    elif mism == 'no-imprint':
+                        r.count('malformed_imprint_constructed_and_refused_later')
                     elif mism:
                         if not (q.rc == 0 and res == 'FAIL' and err == mism):
                             why = 'expected FAIL %s' % mism
